@@ -72,6 +72,16 @@ pub fn judge(res: &Result<Element<String>, ParserError>, exp: &Expect, initial: 
     }
 }
 
+/// the oracle on one input under the default reader (used by the fuzz target): initial parse and extension of a fixed base
+pub fn check_default(input: &[u8]) -> Result<(), String> {
+    let (res, exp) = run_one(input, Kind::Slice, None);
+    judge(&res, &exp, true).map_err(|e| format!("C08 into_struct: {}", e))?;
+    let mut r = Reader::from_reader(&b"<base k='1'><x/></base>"[..]);
+    let base = into_struct(&mut r).map_err(|e| format!("base document rejected: {}", e))?;
+    let (res, exp) = run_one(input, Kind::Slice, Some(base));
+    judge(&res, &exp, false).map_err(|e| format!("C08 extend_struct: {}", e))
+}
+
 fn show(b: &[u8]) -> String {
     String::from_utf8_lossy(b).to_string()
 }
@@ -154,6 +164,22 @@ impl Property for C08 {
             }
         }
         Ok(())
+    }
+    fn extra(&self, tier: Tier, seed: u64, st: &mut Stats) -> Result<(), (Failure, Value)> {
+        if tier == Tier::Thorough {
+            let runs = std::env::var("XSGV_FUZZ_RUNS").ok().and_then(|s| s.parse().ok()).unwrap_or(1_000_000u64);
+            let c = crate::fuzzrun::Campaign { target: "fz_bytes", runs_per_worker: runs, workers: 16, seed: seed ^ 0xc08, max_len: 4096, seeds: crate::props::c07::fuzz_seeds(seed ^ 0xc08) };
+            crate::fuzzrun::campaign_for("C08", &c, st)?;
+        }
+        Ok(())
+    }
+    fn replay_custom(&self, payload: &Value) -> Result<(), Failure> {
+        let input = crate::runner::unhex(payload["input_hex"].as_str().unwrap_or(""));
+        let (_, _, _, body) = crate::fuzzglue::decode_bytes_input(&input);
+        if crate::verdict::nesting_depth(body, false, true) > 200 {
+            return Ok(());
+        }
+        check_default(body).map_err(Failure::new)
     }
     fn rule(&self) -> String {
         "byte strings decoded from tapes: byte-level mutations (overwrite, insert dictionary token, delete, duplicate, truncate, splice, swap, insert raw byte) of generated valid documents, raw bytes with tokens, nesting chains, tiny fragments; fed as into_struct(B1), extend_struct(B2), ... through Reader::from_reader(&[u8]), Reader::from_str (UTF-8 inputs) and BufReader capacities 1..4096, all with the default configuration. A second reader of the same kind over the same bytes is stepped independently; the first of {reader error, non-UTF-8 element name, attribute error, non-UTF-8 attribute key, non-UTF-8 text/CDATA} in stream order fixes the expected verdict (exact variant, Debug-equal inner error, position), else Ok / ParsingError for an element-less initial parse. Non-trivial = the reader produced three or more events before the end or the error; distinct by hash of the input bytes.".into()
